@@ -223,6 +223,43 @@ if tot != want: return "grid-total-differs-from-in-range-weight"
                    bounds="2 symbolic (x, y) records with unit weights; get_2dgrid/prepare_2dgrid through the real numpy (cell contents stay concrete)")
 
 
+def ranges_grid(name, timeout=120):
+    """xy_ranges_grid / x_lim / y_lim of the 2-D plotting mix-ins (real numpy; unit weights keep the cells concrete)"""
+    expr, rng = GRID_TREES[name]
+    pre = " and ".join(rng.format(v=v) for v in ("x1", "y1", "x2", "y2"))
+    body = """
+h = fresh(MK, 1)[0]
+recs = [(x1, y1, None, 0.0), (x2, y2, None, 0.0)]
+for r in recs: h.fill(r)
+def cells(hh):
+    return dict(hh.bins) if hasattr(hh, "bins") and isinstance(hh.bins, dict) else dict(enumerate(hh.values))
+inner = 0.0
+for sub in cells(h).values():
+    for g in cells(sub).values(): inner += g.entries
+if inner == 0.0: return ""
+xr, yr, grid = h.xy_ranges_grid()
+xl, yl = h.x_lim(), h.y_lim()
+if grid.shape != (len(yr) - 1, len(xr) - 1): return "grid-shape-vs-ranges"
+if float(grid.sum()) != inner: return "grid-total-differs-from-in-range-weight"
+for (x, y, _, _) in recs:
+    # a record that landed in a regular cell lies inside the reported limits and inside the reported ranges
+    inx = any(lo <= x < hi for lo, hi in zip(list(xr)[:-1], list(xr)[1:]))
+    iny = any(lo <= y < hi for lo, hi in zip(list(yr)[:-1], list(yr)[1:]))
+    landed = False
+    for xk, sub in cells(h).items():
+        lo, hi = h.range(xk)
+        if lo <= x < hi:
+            for yk, g in cells(sub).items():
+                l2, h2 = sub.range(yk)
+                if l2 <= y < h2 and g.entries > 0: landed = True
+    if landed and not (inx and iny): return "filled-cell-outside-reported-ranges"
+    if landed and not (xl[0] <= x <= xl[1] and yl[0] <= y <= yl[1]): return "filled-cell-outside-reported-limits"
+"""
+    return Harness(f"C13/ranges-grid/{name}", [("x1", "float"), ("y1", "float"), ("x2", "float"), ("y2", "float")], pre, body,
+                   timeout=timeout, setup=C13_SETUP + f"MK = lambda: {expr}\n", tree=expr,
+                   bounds="2 symbolic (x, y) records with unit weights; xy_ranges_grid / x_lim / y_lim through the real numpy")
+
+
 def projections(name, timeout=120):
     expr, rng = GRID_TREES[name]
     pre = " and ".join(rng.format(v=v) for v in ("x1", "y1", "x2", "y2")) + " and w1 > 0.0 and w2 > 0.0"
@@ -299,5 +336,12 @@ def harnesses(tier):
         out.append(grid_numpy(n))
     for n in ("Bin2x2", "Sparse2D"):
         out.append(projections(n))
+        out.append(ranges_grid(n))
     out.append(categorize_views())
     return out
+
+
+def pre_checks(tier, workdir):
+    import kernels
+
+    return kernels.run_C13(tier, workdir)
